@@ -57,6 +57,7 @@ var (
 	ErrEmptyMetaLine  = Error{"gff: empty comment metaline"}
 	ErrBadMetaLine    = Error{"gff: incomplete metaline"}
 	ErrBadSequence    = Error{"gff: corrupt metasequence"}
+	ErrZeroStart      = Error{"gff: one-based start position is zero"}
 )
 
 const (
@@ -416,9 +417,13 @@ func (r *Reader) commentMetaline(line []byte) (f feat.Feature, err error) {
 		if len(fields) <= 3 {
 			return nil, &csv.ParseError{Line: r.line, Err: ErrBadMetaLine}
 		}
+		start := mustAtoi(fields, 2, r.line)
+		if start == 0 {
+			return nil, &csv.ParseError{Line: r.line, Column: 2, Err: ErrZeroStart}
+		}
 		return &Region{
 			Sequence:    Sequence{SeqName: string(fields[1]), Type: r.Type},
-			RegionStart: feat.OneToZero(mustAtoi(fields, 2, r.line)),
+			RegionStart: feat.OneToZero(start),
 			RegionEnd:   mustAtoi(fields, 3, r.line),
 		}, nil
 	case "DNA", "RNA", "Protein", "dna", "rna", "protein":
@@ -507,11 +512,15 @@ func (r *Reader) Read() (f feat.Feature, err error) {
 		return nil, &csv.ParseError{Line: r.line, Column: len(fields), Err: ErrFieldMissing}
 	}
 
+	start := mustAtoi(fields, startField, r.line)
+	if start == 0 {
+		return nil, &csv.ParseError{Line: r.line, Column: startField, Err: ErrZeroStart}
+	}
 	gff := &Feature{
 		SeqName:    string(fields[nameField]),
 		Source:     string(fields[sourceField]),
 		Feature:    string(fields[featureField]),
-		FeatStart:  feat.OneToZero(mustAtoi(fields, startField, r.line)),
+		FeatStart:  feat.OneToZero(start),
 		FeatEnd:    mustAtoi(fields, endField, r.line),
 		FeatScore:  mustAtofPtr(fields, scoreField, r.line),
 		FeatStrand: mustAtos(fields, strandField, r.line),
